@@ -4,21 +4,24 @@
 (* src/keyspace/mod.rs request_rotation / inner_rotate_memtable): a        *)
 (* bounded queue; writers request rotations with try_send (dropped when    *)
 (* the queue is full); a worker that executes a RotateMemtable message     *)
-(* seals the memtable, enqueues a flush task and then announces it with a  *)
-(* BLOCKING send(Flush) into the same queue; a worker that finished a      *)
+(* seals the memtable, enqueues a flush task and then - as found -         *)
+(* announced it with a BLOCKING send(Flush) into the same queue (D28;      *)
+(* since fix 80259e9 it runs a flush task itself); a worker that finished a *)
 (* flush requests compactions with try_send; with more than one worker,    *)
 (* worker 0 hands Compact messages back with a blocking send.  Writers     *)
 (* stall while 4 sealed memtables are waiting.                             *)
 (*                                                                         *)
-(* Not one of the listed properties (C14 speaks about writers): the        *)
-(* liveness question here is whether every sealed memtable is eventually   *)
-(* flushed, i.e. whether background work can stop for ever.                *)
+(* The liveness question: is every sealed memtable eventually flushed,     *)
+(* i.e. can background work stop for ever?  (Stale rotation requests are   *)
+(* abstracted by the flag `big`; WorkerQueue2 carries the memtable ids.)   *)
 (***************************************************************************)
 EXTENDS Naturals, Sequences, FiniteSets
 
 CONSTANTS NWorkers, QCap, MaxWrites,
           SendUnderLock,  \* TRUE: the rotating worker still holds the journal mutex while it sends (not the code)
-          FlushTrySend    \* TRUE: the flush task is announced with try_send, i.e. dropped when the queue is full (not the code)
+          FlushTrySend,   \* TRUE: the flush task is announced with try_send, i.e. dropped when the queue is full (not the code)
+          InlineFlush     \* TRUE (the code since fix 80259e9): a worker that sealed a memtable runs a flush task
+                          \* itself; FALSE (as found): it announces the task with a blocking send(Flush)
 
 VARIABLES q,        \* the queue: Seq of "Rotate" | "Flush" | "Compact"
           wk,       \* [1..NWorkers -> "idle" | "needLockR" | "needLockF" | "sendFlush" | "flushing" | "sendCompact"]
@@ -55,8 +58,8 @@ Acquire(w) ==
     /\ IF wk[w] = "needLockR"
        THEN \* stale request (memtable already rotated): nothing to do
             IF big THEN /\ sealed' = sealed + 1 /\ tasks' = tasks + 1 /\ big' = FALSE
-                        /\ wk' = [wk EXCEPT ![w] = "sendFlush"]
-                        /\ lock' = IF SendUnderLock THEN w ELSE 0
+                        /\ wk' = [wk EXCEPT ![w] = IF InlineFlush THEN "needLockF" ELSE "sendFlush"]
+                        /\ lock' = IF SendUnderLock /\ ~InlineFlush THEN w ELSE 0
                    ELSE /\ wk' = [wk EXCEPT ![w] = "idle"] /\ UNCHANGED <<sealed, tasks, big, lock>>
        ELSE IF tasks > 0 THEN /\ tasks' = tasks - 1 /\ wk' = [wk EXCEPT ![w] = "flushing"]
                               /\ UNCHANGED <<sealed, big, lock>>
